@@ -37,7 +37,7 @@ META = dict(
         "reals instead of floats; damping >= 0 (CCPR: Re q <= 0), dt > 0, omega real; omega_0*dt < 2 is the code's own raise decision on coupled axes "
         "and an explicit assumption for the root clause on uncoupled axes",
         "the identity is claimed where the declared denominator is non-zero (undamped pole exactly at resonance excluded) ",
-        "CCPR |q| enters through pysym's sqrt (s >= 0, s*s = |q|^2); oriented poles: the orientation is a concrete vector (normalised by the real constructor)",
+        "CCPR |q| enters through pysym's sqrt (s >= 0, s*s = |q|^2); oriented poles: the orientation is a concrete vector (normalised by the real constructor) and the declared tensor weight of entry (i,j) is the float64 product u_i*u_j",
         "stubs in the analysed modules: float -> identity on symbolic reals, complex -> symbolic pair, np.zeros -> object arrays, cmath.exp(i*phi) -> (c, s) with c^2+s^2=1",
     ],
     outside="the asymptotic clause (recurrence frequency response -> model with relative error O((omega*dt)^2)): a limit statement, not encoded; "
@@ -230,7 +230,9 @@ def _explore(c, fn, assume, modules):
     """run fn over all feasible paths with the stubs installed; returns [(result, exception, path condition)]"""
     paths = []
     ex = pysym.Explorer(assume, max_paths=200, timeout_ms=c.timeout_ms)
-    stubs = [pysym.stub_module(m, float=pysym.symfloat, complex=symcomplex, np=_NP()) for m in modules]
+    # dispersion.py: float()/complex() conversions of pole parameters, np.zeros; materials.py: only np.zeros (it uses isinstance(v, float))
+    stubs = [pysym.stub_module(m, float=pysym.symfloat, complex=symcomplex, np=_NP()) if m.__name__.endswith("dispersion") else pysym.stub_module(m, np=_NP())
+             for m in modules]
     for s in stubs:
         s.__enter__()
     try:
@@ -362,6 +364,18 @@ def _rational_identity(c, l, r, assume):
     return n == 0
 
 
+def _clear_cond(c, f, assume):
+    """boolean combination of (dis)equalities between rational-function terms -> the same with denominators cleared"""
+    if z3.is_and(f) or z3.is_or(f) or z3.is_not(f):
+        kids = [_clear_cond(c, k, assume) for k in f.children()]
+        return z3.And(*kids) if z3.is_and(f) else (z3.Or(*kids) if z3.is_or(f) else z3.Not(kids[0]))
+    if z3.is_eq(f) and z3.is_arith(f.arg(0)):
+        return _rational_identity(c, f.arg(0), f.arg(1), assume)
+    if z3.is_distinct(f) and f.num_args() == 2 and z3.is_arith(f.arg(0)):
+        return z3.Not(_rational_identity(c, f.arg(0), f.arg(1), assume))
+    return f
+
+
 def _lemmas(c, candidates, assume, timeout_ms=5000):
     """optional proof hints: every candidate that z3 proves under ``assume`` (short timeout) is returned and may then be
     used as an additional assumption of a harder query with the same assumptions (sound: it is implied by them)."""
@@ -399,7 +413,19 @@ def _de_uf(claim, assume):
         stack.extend(u.children())
     if not apps:
         return claim, list(assume)
-    subs = [(a, z3.Real(f"sqrt!{i}")) for i, a in enumerate(apps)]
+    # applications whose arguments have the same z3 normal form denote the same value (pysym simplifies branch conditions, so the
+    # same sqrt occurs as sqrt(-G*-G + ..) in value terms and as sqrt(G*G + ..) in the path condition): they share one constant
+    canon, subs = [], []
+    for a in apps:
+        key = z3.simplify(a.arg(0), som=True)
+        for k, v in canon:
+            if k.eq(key):
+                subs.append((a, v))
+                break
+        else:
+            v = z3.Real(f"sqrt!{len(canon)}")
+            canon.append((key, v))
+            subs.append((a, v))
     # innermost first is not needed: arguments of these applications contain no further sqrt in this module
     rw = lambda f: z3.substitute(f, *subs) if isz(f) else f  # noqa: E731
     return rw(claim), [rw(a) for a in assume]
@@ -473,13 +499,14 @@ def _pole_case(c, case):
             if isz(cond) and any(cond.eq(q) for q in seen_side):
                 continue
             seen_side.append(cond)
-            c.prove(f"path{pi}: definedness {kind_} (where the declared denominators are non-zero)", cond, pc + nz_all, None, key=key + ":definedness")
+            cond_, assume_ = _de_uf(_clear_cond(c, cond, pc + nz_all), pc + nz_all)
+            c.prove(f"path{pi}: definedness {kind_} (where the declared denominators are non-zero)", cond_, assume_, None, key=key + ":definedness")
         for j in range(ncomp):
             ax = j // 3 if ncomp == 9 else (j if ncomp == 3 else 0)
             N, D = declared(tv, W, ax)
             if ncomp == 9:
                 u = build({k: 1.0 for k in P})[0].orientation
-                wgt = (Fraction(float(u[j // 3])) * Fraction(float(u[j % 3]))) if u is not None else (1 if j % 4 == 0 else 0)
+                wgt = Fraction(float(u[j // 3]) * float(u[j % 3])) if u is not None else (1 if j % 4 == 0 else 0)  # the float64 product, as np.outer forms it
                 N = sc.mul(sc.cx(N), wgt)
             X = sc.cx(chi[j])
             lhs = sc.mul(X, sc.cx(D))
@@ -515,7 +542,11 @@ def _pole_case(c, case):
             _prove_boxed(c, f"path{pi}: no root of z^2-c1[{j}]z-c2[{j}] outside the unit circle", z3.Not(root), pc + legal, box, rroot, key + ":root-outside-unit-circle")
         if nval == 1:
             X = sc.cx(chi[0])
-            c.witness("twin: reconstructed susceptibility is non-zero and frequency dependent", z3.And(sc.toz(X.re) != 0, sc.toz(X.im) != 0), pc + box)
+            # at a concrete point of the well-conditioned box (z3 only has to evaluate)
+            mid = [s.t == z3.RealVal({"cphi": Fraction(3, 5), "sphi": Fraction(4, 5)}.get(k, Fraction(b0.arg(1).as_fraction() + b1.arg(1).as_fraction()) / 2))
+                   for (k, s), b0, b1 in zip(P.items(), box[0::2], box[1::2])]
+            tw, asm = _de_uf(z3.And(sc.toz(X.re) != 0, sc.toz(X.im) != 0), pc + mid + [DT == Fraction(3, 4), W == Fraction(9, 10)])
+            c.witness("twin: reconstructed susceptibility is non-zero with a non-zero imaginary part", tw, asm)
     if nval == 0:
         raise Inconclusive("no value-returning path")
     c.extra["value_paths"] = nval
@@ -614,11 +645,33 @@ def _padding_case(c, case):
         c.symvars += sum(a.size for a in row) + 2
         base, side, tr = _chi(c, row, W, DT)
         zero = lambda a: np.zeros((1,) + a.shape[1:])  # noqa: E731
+        def real_chi(arrs, w, dtv):
+            a = [jnp.asarray(np.asarray(x, dtype=np.float64)) for x in arrs]
+            return np.asarray(dp.susceptibility_from_coefficients(a[0], a[1], a[2], w, dtv, a[3]))
+
         for tag, order in (("after", lambda a: np.concatenate([a, jx.lift(zero(a))], axis=0)), ("before", lambda a: np.concatenate([jx.lift(zero(a)), a, jx.lift(zero(a))], axis=0))):
             padded, _, _ = _chi(c, [order(a) for a in row], W, DT)
-            c.prove_eq(f"comps={comps}: zero slot {tag} contributes nothing", padded, base, [], None, key="padding:zero-slot-contributes")
-        allzero, _, _ = _chi(c, [np.zeros((2,) + a.shape[1:]) for a in row], W, DT)
-        c.prove(f"comps={comps}: all-zero coefficients give chi == 0", bool(np.all(jx.to_numeric(allzero) == 0)), [], None, key="padding:all-zero")
+
+            def rpad(m, order=order, row=row):
+                from ..core import model_array
+                rv = [model_array(m, a) for a in row]
+                w, dtv = model_value(m, W), model_value(m, DT)
+                b = real_chi(rv, w, dtv)
+                pd = real_chi([jx.to_numeric(order(jx.fracarr(a))) for a in rv], w, dtv)
+                if not np.all(np.isfinite(b)):
+                    raise Inconclusive("witness coefficients give a non-finite susceptibility")
+                return bool(np.max(np.abs(pd - b)) > 1e-9 * (1 + np.max(np.abs(b)))), dict(coefficients=rv, omega=w, dt=dtv, padded=pd, unpadded=b)
+
+            c.prove_eq(f"comps={comps}: zero slot {tag} contributes nothing", padded, base, [], rpad, key="padding:zero-slot-contributes")
+        zs = [np.zeros((2,) + a.shape[1:]) for a in row]
+        allzero, _, _ = _chi(c, zs, W, DT)
+
+        def rzero(m, zs=zs):
+            w, dtv = model_value(m, W), model_value(m, DT)
+            v = real_chi(zs, w, dtv)
+            return bool(np.any(v != 0)), dict(omega=w, dt=dtv, chi=v)
+
+        c.prove(f"comps={comps}: all-zero coefficients give chi == 0", (not jx.has_z3(allzero)) and bool(np.all(jx.to_numeric(allzero) == 0)), [W == W, DT > 0], rzero, key="padding:all-zero")
         if comps == 1:
             X = sc.cx(base.reshape(-1)[0])
             c.witness("twin: a non-zero slot contributes", sc.toz(X.re) != 0, [])
@@ -649,9 +702,31 @@ def _padding_case(c, case):
         vals = [p for p in paths if p[1] is None]
         for res, exc, pc in paths:
             if exc is not None:
-                c.prove(f"padding comps={comps}/{ccomps}: no exception on legal poles", False, pc, None, key="padding:raises")
+                c.prove(f"padding comps={comps}/{ccomps}: no exception on legal poles ({type(exc).__name__}: {str(exc)[:200]})", False, pc, lambda m: (True, dict(note="exception path feasible", model=str(m)[:300])), key="padding:raises")
         if not vals:
             raise Inconclusive("padding routine: no value path")
+        def rslots(m, comps=comps, ccomps=ccomps):
+            v = {k: model_value(m, s_.t) for k, s_ in dict(w0=w0, g=g, de=de, wp=wp, g2=g2).items()}
+            dtv = model_value(m, dt.t)
+            lor = dp.LorentzPole(resonance_frequency=v["w0"], damping=v["g"], delta_epsilon=v["de"])
+            dru = dp.DrudePole(plasma_frequency=v["wp"], damping=v["g2"])
+            ms = {"air": fdtdx.Material(), "one": fdtdx.Material(permittivity=2.0, dispersion=dp.DispersionModel(poles=(lor,))),
+                  "two": fdtdx.Material(permittivity=3.0, dispersion=dp.DispersionModel(poles=(dru, lor)))}
+            names = [n for n, _ in mt.compute_ordered_material_name_tuples(ms)]
+            got = mt.compute_allowed_dispersive_coefficients(ms, dtv, 3, comps, ccomps)
+            refs = dict(one=dp.compute_pole_coefficients_tensor((lor,), dtv), two=dp.compute_pole_coefficients_tensor((dru, lor), dtv))
+            dg = {1: [0], 3: [0, 4, 8], 9: list(range(9))}[ccomps]
+            bad = []
+            for k in range(4):
+                sel = list(range(comps)) if k < 2 else dg
+                for mi, name in enumerate(names):
+                    npoles = dict(air=0, one=1, two=2)[name]
+                    if np.any(got[k][mi, npoles:] != 0):
+                        bad.append(f"c{k + 1}[{name}] padded slot non-zero")
+                    if npoles and not np.array_equal(got[k][mi, :npoles], refs[name][k][:, sel]):
+                        bad.append(f"c{k + 1}[{name}] differs from compute_pole_coefficients_tensor")
+            return bool(bad), dict(params=v, dt=dtv, mismatches=bad[:6])
+
         for pi, (res, exc, pc) in enumerate(vals):
             order, arrs, one, two = res
             diag = {1: [0], 3: [0, 4, 8], 9: list(range(9))}[ccomps]
@@ -663,9 +738,9 @@ def _padding_case(c, case):
                     npoles = dict(air=0, one=1, two=2)[name]
                     pad = A[mi, npoles:]
                     c.prove(f"padding comps={comps}/{ccomps} path{pi}: c{k + 1}[{name}] padded slots are exact zeros",
-                            bool(all((not isz(v)) and v == 0 for v in pad.reshape(-1))), pc, None, key="padding:nonzero-pad")
+                            bool(all((not isz(v)) and v == 0 for v in pad.reshape(-1))), pc, rslots, key="padding:nonzero-pad")
                     if npoles:
-                        c.prove_eq(f"padding comps={comps}/{ccomps} path{pi}: c{k + 1}[{name}] real slots unchanged", A[mi, :npoles], ref[name], pc, None, key="padding:slot-changed")
+                        c.prove_eq(f"padding comps={comps}/{ccomps} path{pi}: c{k + 1}[{name}] real slots unchanged", A[mi, :npoles], ref[name], pc, rslots, key="padding:slot-changed")
     c.witness("twin: padding assumptions satisfiable", True, assume)
 
 
